@@ -442,3 +442,28 @@ def run(ctx):
         ctx.cap("generated patterns: every single-edit mutation of %s formatted text(s) per pattern, digit-run replacements of all seed texts; non-invariant cultures only for culture-dependent patterns" % ("one" if tier == "quick" else "three"))
     ctx.exhaustive = False
     ctx.cap("pattern texts: all strings <= 3 over a 35-character alphabet and <= %d over the 10-character structural alphabet; longer texts only from the generated grammar" % (5 if tier == "quick" else 6))
+
+
+def replay(rec) -> bool:
+    """Re-execute one recorded create / parse case; True when the same violation key reappears."""
+    key = rec.get("key", "")
+    case = rec.get("case") or {}
+    if "case" in case and isinstance(case["case"], dict):
+        case = case["case"]
+    kind = case.get("kind") or key.split("/")[1]
+    cname = case.get("culture", "") or ""
+    acc = Acc()
+    if "builtin" in case:
+        pat = getattr(KCLS[kind], case["builtin"].split(".", 1)[1])
+    else:
+        pat = try_create(acc, kind, case.get("pattern"), cname)
+        if pat is not None and "calendar" in case:
+            try:
+                pat = pat.with_calendar(CalendarSystem.for_id(case["calendar"]))
+            except Exception as e:  # noqa: BLE001
+                return "/with_calendar/" in key and type(e).__name__ in key
+        if pat is not None and str(case.get("config", "")).startswith("with_calendar("):
+            pat = pat.with_calendar(CalendarSystem.for_id(case["config"][len("with_calendar("):-1]))
+    if pat is not None and "text" in case:
+        check_parse(acc, kind, pat, case["text"], dict(case), True)
+    return key in acc.violations
